@@ -54,6 +54,8 @@ SCHEMES = {
     "fields": {"a": "comment", "b": "source", "c": "private", "d": "announce", "e": "url-list", "z": "info"},
     "selfnamed": {"a": "name", "d": "name", "b": "name.torrent", "z": ".torrent"},
     "padlike": {"a": ".pad", "b": "0", "d": ".pad", "c": "16384"},
+    "backslash": {"a": "a\\b", "b": "\\b", "d": "d\\e", "c": "c\\"},      # legal POSIX names containing the other platform's separator
+    "percent": {"a": "100% done", "b": "%s", "d": "My%20Dir", "c": "%(x)s", "z": "%"},
 }
 
 
@@ -85,6 +87,41 @@ def scheme_shapes(base_shapes, tier, seed=None, per_run=2):
             for i in range(per_run):
                 out.append(names[(seed * per_run + i) % len(names)])
     return sorted(set(out))
+
+
+# spellings of the content root /data/name: (path as given, working directory)
+SPELLINGS = {
+    "dot": (".", "/data/name"),
+    "dotslash": ("./", "/data/name"),
+    "updown": ("name/../name", "/data"),
+    "sibling": ("../name", "/data/other"),
+    "twice": ("../other/../name", "/data/other"),
+    "dotname": ("./name", "/data"),
+    "trailing": ("name/", "/data"),
+    "relative": ("name", "/data"),
+    "dslash": ("/data//name", "/cwd"),
+    "absdot": ("/data/./name/.", "/cwd"),
+}
+
+
+def spelled(fs, spelling):
+    """Prepare `fs` for a spelling of /data/name; returns the path string to hand to the creator."""
+    path, cwd = SPELLINGS[spelling]
+    fs.mkdirs(cwd)
+    fs.mkdirs("/data/other")
+    fs.cwd = cwd
+    return path
+
+
+def spelled_real(workdir, spelling):
+    """Concrete side: returns (path string, directory to chdir into) below workdir."""
+    path, cwd = SPELLINGS[spelling]
+    real_cwd = os.path.join(workdir, cwd.lstrip("/"))
+    os.makedirs(real_cwd, exist_ok=True)
+    os.makedirs(os.path.join(workdir, "data", "other"), exist_ok=True)
+    if path.startswith("/"):
+        path = workdir + path
+    return path, real_cwd
 
 
 CLS = {"1": ("TorrentFile", None), "2a": ("TorrentAssembler", "2"), "3a": ("TorrentAssembler", "3"),
